@@ -696,6 +696,8 @@ func runHTTPSrv(o Opts) {
 			}
 			continue
 		}
+		// every observed trace must be a behaviour of the concurrent model HttpLts (trace acceptor in the Lean driver)
+		e.Case("httpaccept "+h+" "+ev, "accepted")
 		if zeroDrain {
 			// a drain timeout of zero: every stop reports the timeout, at once (the operation-level model has no such
 			// configuration; only the C14 statement is evaluated)
